@@ -3,6 +3,7 @@ package main
 import (
 	"fmt"
 	"go/ast"
+	"go/token"
 	"go/types"
 	"strings"
 
@@ -216,6 +217,33 @@ func (e *Env) havocLoop(fr *Frame, st *State, l *loop, hdr *ssa.BasicBlock) {
 			case *ssa.MapUpdate:
 				if v, ok := fr.regs[x.Map]; ok && v.K == kTerm {
 					fr.regs[x.Map] = e.symbolic(st, v.Typ, "loop_map")
+				}
+				// a map that lives in a struct field / variable and is loaded inside the loop body (m := s.f; m[k] = v):
+				// maps are references, so the update is visible through the field: havoc exactly that field
+				if u, ok := x.Map.(*ssa.UnOp); ok && u.Op == token.MUL {
+					var path []PathEl
+					a := u.X
+					okPath := true
+					for i := 0; i < 20; i++ {
+						fa, isFA := a.(*ssa.FieldAddr)
+						if !isFA {
+							break
+						}
+						path = append([]PathEl{{Field: fa.Field, Idx: ""}}, path...)
+						a = fa.X
+					}
+					if _, isIA := a.(*ssa.IndexAddr); isIA {
+						okPath = false
+					}
+					if bv, ok := fr.regs[a]; ok && bv.K == kPtr && okPath {
+						full := append(append([]PathEl(nil), bv.Ptr.Path...), path...)
+						root := st.cells[bv.Ptr.Cell]
+						if root.Typ != nil {
+							st.cells[bv.Ptr.Cell] = e.update(st, root, full, e.symbolic(st, x.Map.Type(), "loop_map"))
+						}
+					} else if id, ok := e.baseCell(fr, u.X); ok {
+						havocCells[id] = true
+					}
 				}
 			case ssa.CallInstruction:
 				c := x.Common()
